@@ -40,16 +40,41 @@ fn content(c: &Case) -> Vec<u8> {
             put32(v, off, x);
         }
     };
+    // the words beside the size field: markers, zero (an end tag's type /
+    // a zero magic), a small defined id, or the "right" value - success and
+    // size must not depend on them
+    let other = (c.key >> 9) & 3;
     match c.hdr {
-        0 | 1 => put(&mut v, 4, c.declared),
-        2 => put(&mut v, 0, c.declared),
+        0 | 1 => {
+            match other {
+                1 => put(&mut v, 0, 0),
+                2 => put(&mut v, 0, (c.key >> 11) as u32 % 22),
+                _ => {}
+            }
+            put(&mut v, 4, c.declared)
+        }
+        2 => {
+            if other == 1 {
+                put(&mut v, 4, 0);
+            }
+            put(&mut v, 0, c.declared)
+        }
         3 => {
             put(&mut v, 0, (c.key % 11) as u32 | (((c.key >> 8) & 1) as u32) << 16);
             put(&mut v, 4, c.declared);
         }
         _ => {
+            match other {
+                1 => put(&mut v, 0, 0),
+                2 | 3 => put(&mut v, 0, 0xE852_50D6),
+                _ => {}
+            }
             put(&mut v, 4, if c.key & 1 == 0 { 0 } else { 4 });
             put(&mut v, 8, c.declared);
+            if other == 3 && v.len() >= 16 {
+                let ck = 0u32.wrapping_sub(0xE852_50D6u32.wrapping_add(le32(&v, 4)).wrapping_add(c.declared));
+                put(&mut v, 12, ck);
+            }
         }
     }
     v
@@ -166,15 +191,24 @@ fn enumerate(ctx: &Ctx) -> Box<dyn Iterator<Item = Case>> {
     let it = (0u8..5).flat_map(move |hdr| {
         (0..=max_len).flat_map(move |len| {
             (0..8usize).flat_map(move |mis| {
-                (0..=(len + 16) as u32).map(move |declared| Case { hdr, len, mis, declared, key: (len * 8 + mis) as u64 })
+                (0..=(len + 16) as u32).map(move |declared| Case { hdr, len, mis, declared, key: (len * 8 + mis) as u64 | ((declared as u64 + len as u64) % 4) << 9 | (declared as u64) << 11 })
             })
         })
     });
     Box::new(it)
 }
 
+/// Sizes at which a structure crosses something a specification or the
+/// library mentions (search window, page, header limit, u16).
+const BOUNDS: [usize; 6] = [4096, 8192, 16384, 32768, 65536, 66000];
+
 fn strategy(_: &Ctx) -> BoxedStrategy<Case> {
-    (0u8..5, 0usize..4096, prop_oneof![3 => Just(0usize), 1 => 0usize..8], any::<u32>(), any::<u64>(), 0u8..6)
+    let len = prop_oneof![
+        6 => 0usize..4096,
+        1 => 4096usize..70000,
+        1 => (0usize..BOUNDS.len(), 0usize..48).prop_map(|(b, d)| (BOUNDS[b] + 24 - d) / 8 * 8),
+    ];
+    (0u8..5, len, prop_oneof![3 => Just(0usize), 1 => 0usize..8], any::<u32>(), any::<u64>(), 0u8..8)
         .prop_map(|(hdr, len, mis, d, key, mode)| {
             let declared = match mode {
                 0 => len as u32,
@@ -182,6 +216,8 @@ fn strategy(_: &Ctx) -> BoxedStrategy<Case> {
                 2 => (len as u32).saturating_sub(d % 17),
                 3 => d % 32,
                 4 => d,
+                6 => (BOUNDS[d as usize % BOUNDS.len()] as u32 + 8).saturating_sub((d >> 8) % 17),
+                7 => d % (len as u32 + 1),
                 _ => (len as u32 / 8 * 8).saturating_sub(d % 9),
             };
             let len = if mode == 5 { len / 8 * 8 } else { len };
@@ -266,7 +302,7 @@ pub fn subs() -> Vec<Box<dyn Sub>> {
     vec![
         Box::new(PropSub::<Case> {
             name: "ref_from_slice",
-            rule: "DynSizedStructure::<H>::ref_from_slice and BytesRef::<H>::try_from for H in {DummyTestHeader, TagHeader, BootInformationHeader, HeaderTagHeader, Multiboot2BasicHeader}. Enumerated completely: slice length 0..=56 (thorough 88) x start misalignment 0..=7 x declared size 0..=len+16. Generated: lengths to 4096, declared sizes around the length / tiny / random. Oracle: error precedence of the statement, then address/header/payload/size_of_val equalities. Non-trivial = every case except (valid, declared == len); distinct by (header, len, misalignment, declared)",
+            rule: "DynSizedStructure::<H>::ref_from_slice and BytesRef::<H>::try_from for H in {DummyTestHeader, TagHeader, BootInformationHeader, HeaderTagHeader, Multiboot2BasicHeader}. Enumerated completely: slice length 0..=56 (thorough 88) x start misalignment 0..=7 x declared size 0..=len+16. The header's other words (type, reserved, magic) are markers, zero, a small defined id or the right value: success and size must not depend on them. Generated: lengths to 70000 incl. 8-aligned lengths around 4096/8192/16384/32768/65536, declared sizes around the length / around those bounds / tiny / uniform below the length / random. Oracle: error precedence of the statement, then address/header/payload/size_of_val equalities. Non-trivial = every case except (valid, declared == len); distinct by (header, len, misalignment, declared)",
             profiles: Profiles::Both,
             quick: 40000,
             thorough: 3000000,
